@@ -594,10 +594,11 @@ class t2listing(object):
         start = None
         pt = line.find('.')
         if pt >= 2:
-            nextpt = line.find('.', pt + 1)
-            if nextpt < 0 : nextpt = len(line)
-            s = line[pt + 1: nextpt - 1].lower()
-            exponential = s.find('e') >= 0 or s.find('+') >= 0 or s.find('-') >= 0
+            # exponential if the digits after the point are followed directly by an
+            # exponent (e.g. E+05, or -105 for a 3-digit exponent with the E omitted):
+            from re import match
+            exponential = match('[0-9]*([ed][+-]?[0-9]|[+-][0-9]{3})',
+                                line[pt + 1:].lower()) is not None
             if exponential:
                 c = line[pt - 2]
                 if c in ['-',' ']: start = pt - 2
